@@ -158,6 +158,8 @@ abbrev Traced (α : Type) := α × List Bytes
 
 def withTrace {α : Type} (p : Bytes) (r : Traced α) : Traced α := (r.1, p :: r.2)
 
+def appendTrace {α : Type} (t : List Bytes) (r : Traced α) : Traced α := (r.1, t ++ r.2)
+
 /-! ### mapDirOpenError -/
 
 /-- the names `mapDirOpenError` stats: for every non-empty part `i`, `parts[:i+1]` joined -/
@@ -190,6 +192,8 @@ structure Cfg where
   browse : Bool
   passThru : Bool
   canonical : Bool
+  pre : List (Bytes × Bytes) := []   -- precompressed: Accept-Encoding name ↦ file suffix (a Go map: keys unique)
+  accepted : List Bytes := []        -- what `encode.AcceptedEncodings(r, order)` returned, in order
 deriving Repr
 
 inductive Outcome where
@@ -201,6 +205,8 @@ inductive Outcome where
   | redirect                                  -- 308 canonical-URI redirect
   | file (path : Bytes) (id : Nat)            -- bytes of file `id`, opened as `path`
   | listing (path : Bytes) (names : List Bytes)  -- directory listing of `path`
+  | sidecar (path : Bytes) (id : Nat) (enc : Bytes)  -- bytes of precompressed file `id`, opened as `path`,
+                                                     -- sent with `Content-Encoding: enc`
 deriving DecidableEq, Repr
 
 def Cfg.rootE (c : Cfg) : Bytes := rootOrDot c.root
@@ -277,12 +283,34 @@ def openAndServe (fs : FS) (c : Cfg) (filename : Bytes) : Traced Outcome :=
       | (.perm, t) => (.forbidden, t)
       | (_, t) => (.unavailable, t)
 
+/-- `fsrv.precompressors[ae]` -/
+def sidecarSuffix (c : Cfg) (ae : Bytes) : Option Bytes := (c.pre.find? (·.1 = ae)).map (·.2)
+
+/-- "check for precompressed files": the first accepted encoding with a configured precompressor
+    whose sidecar `filename + suffix` can be stat'ed and is not a directory.  Note that the
+    sidecar's own name is not tested against the hide list. -/
+def findSidecar (fs : FS) (c : Cfg) (filename : Bytes) : List Bytes → Traced (Option (Bytes × Nat × Bytes))
+  | [] => (none, [])
+  | ae :: rest =>
+    match sidecarSuffix c ae with
+    | none => findSidecar fs c filename rest
+    | some suf =>
+      match fs (filename ++ suf) with
+      | .file id => (some (filename ++ suf, id, ae), [filename ++ suf, filename ++ suf])
+      | _ => withTrace (filename ++ suf) (findSidecar fs c filename rest)
+
+/-- sidecar or the file itself -/
+def serveContent (fs : FS) (c : Cfg) (filename : Bytes) : Traced Outcome :=
+  match findSidecar fs c filename c.accepted with
+  | (some (p, id, ae), t) => (.sidecar p id ae, t)
+  | (none, t) => appendTrace t (openAndServe fs c filename)
+
 /-- hidden check, canonical-URI redirect, open (everything after the directory branch) -/
 def serveFile (fs : FS) (c : Cfg) (filename : Bytes) (implicitIndex : Bool) (path orig : Bytes) : Traced Outcome :=
   if c.hidden filename then (notFoundOut c, [])
   else if c.canonical && sameBase orig path && implicitIndex && !endsWithSlash orig then (.redirect, [])
   else if c.canonical && sameBase orig path && !implicitIndex && endsWithSlash orig then (.redirect, [])
-  else openAndServe fs c filename
+  else serveContent fs c filename
 
 /-- directory or file? -/
 def serveNode (fs : FS) (c : Cfg) (filename : Bytes) (info : Node) (implicitIndex : Bool)
@@ -293,7 +321,6 @@ def serveNode (fs : FS) (c : Cfg) (filename : Bytes) (info : Node) (implicitInde
     else (notFoundOut c, [])
   | _ => serveFile fs c filename implicitIndex path orig
 
-def appendTrace {α : Type} (t : List Bytes) (r : Traced α) : Traced α := (r.1, t ++ r.2)
 
 /-- after a successful first stat -/
 def serveStatOk (fs : FS) (c : Cfg) (filename : Bytes) (info : Node) (path orig : Bytes) : Traced Outcome :=
